@@ -205,7 +205,9 @@ def run(F, R, tier):
                  "overflows the type it is used as must be rejected, not aliased to another key)", 0)
     from .rules_c14 import narrowing_check
     nn, nd = narrowing_check(F, R, "K7")
-    if nn < 2:
+    _chain = any(x.get("k") == "DeclRefExpr" and re.search(r"is_same|integral_constant<bool", str(x.get("n") or ""))
+                 for g_ in F.by_name.get("gm2calc::GM2_slha_io::convert_to", []) for x in walk(g_["body"]))
+    if nn < 2 and _chain:      # positive control, meaningful only while convert_to<> has dead type branches
         R.soft_broken("K7: the narrowing sites of convert_to<> (dead template branches) were not seen: extraction incomplete")
     # all token conversions in the reader go through convert_to
     R.rule("K1b", "every token read from a data line / block header in GM2_slha_io is converted through convert_to", 6)
